@@ -464,10 +464,10 @@ def f11_compile_purity(ctx, repo):
     ifs = [n for n in walk_no_nested(f.node) if isinstance(n, ast.If) and norm(n.test) == "deleteFormat" and any(isinstance(s, ast.Delete) and norm(s.targets[0]) == "self.Format" for s in n.body)]
     ok = len(ifs) == 1 and g.post_dominates_exit(g.id_of(ifs[0]))
     flag = [norm(n.value) for n in walk_no_nested(f.node) if isinstance(n, ast.Assign) and norm(n.targets[0]) == "deleteFormat"]
-    ok = ok and flag == ["not hasattr(self, 'Format')", "deleteFormat and hasattr(self, 'Format')", "False"]
+    ok = ok and sorted(flag) == sorted(["not hasattr(self, 'Format')", "deleteFormat and hasattr(self, 'Format')", "False"])  # arm order is free
     ctx.ob("F11r", f.where, "Format added by preWrite is deleted on every normal exit (if deleteFormat: del self.Format)", ok, "" if ok else "a Format attribute set during compile can survive the save")
     tabs = [norm(n.value) for n in walk_no_nested(f.node) if isinstance(n, ast.Assign) and norm(n.targets[0]) == "table"]
-    ok = tabs == ["self.preWrite(font)", "self.__dict__.copy()"]
+    ok = sorted(tabs) == sorted(["self.preWrite(font)", "self.__dict__.copy()"])
     ctx.ob("F11r", f.where, f"compile works on {tabs}", ok, "" if ok else "compile no longer works on a copy of the object's dict")
     o2 = repo.mod("ttLib/tables/O_S_2f_2.py").func("table_O_S_2f_2.compile")
     assigns = [n for n in walk_no_nested(o2.node) if isinstance(n, ast.Assign) and norm(n.targets[0]) == "self.panose"]
